@@ -4545,6 +4545,8 @@ class QntCnfMacro(Macro):
         cnf_body = get_cnf(body)
 
         ys, concl_body = concl.strip_forall()
+        if any(prem.occurs_var(y) for y in ys):
+            raise VeriTException("qnt_cnf", "cannot generalise over a variable that is free in the premise")
 
         cnf_body_conjs = cnf_body.strip_conj()
         if any(concl_body == t for t in cnf_body_conjs):
